@@ -2122,6 +2122,9 @@ class TestGraph(object):
                     "test_timeout", 3600
                 ) * next.params.get_numeric("max_tries", 1)
                 occupied_timeout = round(max(test_duration / 1000, 0.1), 2)
+                # the creation of an object consists of two consecutive tests
+                if next.is_object_root():
+                    test_duration *= 2
                 # despite ergodicity we ended at the same node (no other work)
                 if next in occupied_at:
                     if occupied_wait > test_duration:
